@@ -26,6 +26,10 @@ partial def docOfJson (j : Json) : Except String J :=
   | .str s => pure (.str s)
   | .arr a => do pure (.list (← a.toList.mapM docOfJson))
   | .obj _ => do
+    if let .ok f := j.getObjVal? "f" then
+      let p ← f.getArr?
+      if p.size != 2 then throw "float ratio"
+      return .float (← p[0]!.getInt?) (← p[1]!.getNat?)
     let kvs ← (← (← j.getObjVal? "o").getArr?).toList.mapM fun kv => do
       let p ← kv.getArr?
       if p.size != 2 then throw "object entry"
@@ -37,21 +41,39 @@ partial def docToJson : J → Json
   | .bool b => .bool b
   | .int i => Json.num (Lean.JsonNumber.fromInt i)
   | .str s => .str s
+  | .float n d => Json.mkObj [("f", Json.arr #[Json.num (Lean.JsonNumber.fromInt n), Json.num (Lean.JsonNumber.fromNat d)])]
   | .list xs => Json.arr (xs.map docToJson).toArray
   | .obj kvs => Json.mkObj [("o", Json.arr (kvs.map fun (k, v) => Json.arr #[.str k, docToJson v]).toArray)]
 
-def fnOfName : String → Except String FnName
-  | "ident" => pure .ident
-  | "addOne" => pure .addOne
-  | "upper" => pure .upper
-  | "wrap" => pure .wrap
-  | "concat" => pure .concat
-  | "pair" => pure .pair
-  | s => throw s!"unknown function {s}"
+def errOfName : String → Err
+  | "TypeError" => .typeErr
+  | "AttributeError" => .attrErr
+  | s => .other s
+
+/-- decode an outcome `{"ok": value} | {"err": class name}` (every exception class is representable) -/
+def outcomeOfJson (j : Json) : Except String (R J) := do
+  if let .ok x := j.getObjVal? "ok" then return .ok (← docOfJson x)
+  pure (.error (errOfName (← (← j.getObjVal? "err").getStr?)))
+
+/-- a user function given by the table of calls observed on the real code (`rows` = (arguments, outcome));
+    arguments are compared like Python `==` on JSON documents (key order ignored).  A call the table does not
+    have answers `oracle-miss`, which the harness reports as a disagreement. -/
+def tableFn (rows : List (List J × R J)) : UserFn := fun args =>
+  match rows.find? (fun r => r.1.length == args.length && (r.1.zip args).all fun p => pyEq p.1 p.2) with
+  | some r => r.2
+  | none => .error (.other "oracle-miss")
+
+def fnTableOfJson (fns : Json) (id : String) : Except String UserFn := do
+  let rows ← (← (← fns.getObjVal? id).getArr?).toList.mapM fun row => do
+    let p ← row.getArr?
+    if p.size != 2 then throw "fn table row"
+    let args ← (← p[0]!.getArr?).toList.mapM docOfJson
+    pure (args, (← outcomeOfJson p[1]!))
+  pure (tableFn rows)
 
 def mapperSuffix : String := "._mapper"
 
-partial def mappingOfJson (j : Json) : Except String Mapping := do
+partial def mappingOfJson (fns : Json) (j : Json) : Except String Mapping := do
   (← j.getArr?).toList.mapM fun kv => do
     let p ← kv.getArr?
     if p.size != 2 then throw "mapping entry"
@@ -64,15 +86,16 @@ partial def mappingOfJson (j : Json) : Except String Mapping := do
       let args ← match Typedpy.Wire.optField e "args" with
         | none => pure []
         | some a => (← a.getArr?).toList.mapM (·.getStr?)
-      return (k, Entry.fn (← fnOfName (← x.getStr?)) args)
+      return (k, Entry.fn (← fnTableOfJson fns (← x.getStr?)) args)
     if let .ok x := e.getObjVal? "sub" then
       if !k.endsWith mapperSuffix then throw s!"sub entry key without ._mapper: {k}"
-      return ((k.dropEnd mapperSuffix.length).toString, Entry.sub (← mappingOfJson x))
+      return ((k.dropEnd mapperSuffix.length).toString, Entry.sub (← mappingOfJson fns x))
     throw s!"mapping entry {e.compress}"
 
 def errName : Err → String
   | .typeErr => "TypeError"
   | .attrErr => "AttributeError"
+  | .other n => n
 
 def resToJson : R J → Json
   | .ok v => Json.mkObj [("ok", docToJson v)]
@@ -82,8 +105,8 @@ def resToJson : R J → Json
 def resOfJson (j : Json) : Except String (Option (R J)) := do
   if let .ok x := j.getObjVal? "ok" then return some (.ok (← docOfJson x))
   match (← j.getObjVal? "err").getStr? with
-  | .ok "TypeError" => pure (some (.error .typeErr))
-  | .ok "AttributeError" => pure (some (.error .attrErr))
+  | .ok "NotJson" => pure none
+  | .ok n => pure (some (.error (errOfName n)))
   | _ => pure none
 
 def optInt (o : Option Int) : Json :=
@@ -94,7 +117,8 @@ def optBool (o : Option Bool) : Json :=
 
 def run (j : Json) : Except String Json := do
   let doc ← docOfJson (← j.getObjVal? "doc")
-  let ms ← (← (← j.getObjVal? "ms").getArr?).toList.mapM mappingOfJson
+  let fns := match j.getObjVal? "fns" with | .ok x => x | _ => Json.mkObj []
+  let ms ← (← (← j.getObjVal? "ms").getArr?).toList.mapM (mappingOfJson fns)
   let splits ← (← (← j.getObjVal? "splits").getArr?).toList.mapM (·.getNat?)
   let hasAttr := match j.getObjVal? "hasAttr" with | .ok (.bool b) => b | _ => true
   let full := convertDict doc ms
